@@ -19,7 +19,7 @@ from pv.codec import D0, mkdt
 ASSUMPTIONS = [
     'a timeseries has a strictly increasing DatetimeIndex without duplicate stamps (is_ts warns about unsorted ones; pandas label slicing, '
     'used as fast path, is positional on unsorted axes), no timezone, second resolution',
-    'single slices: Series (named or not) and DataFrames of 1-3 columns holding floats (with NaN), ints or strings; 0-9 rows',
+    'single slices: Series (named or not) and DataFrames of 1-3 columns holding floats (with NaN), ints or strings; 0-11 rows (0-15 in the thorough tier)',
     'date bounds are given as datetime / pandas.Timestamp / numpy.datetime64, and as datetime.date or "YYYYMMDD" text when they fall on midnight '
     '(other spellings of dates are the subject of C04); no today-relative bounds',
     'openclose is one of the 4 bracket pairs or their letter forms oc/co/cc/oo (upper or lower case), or omitted (= "(]"); '
@@ -27,7 +27,7 @@ ASSUMPTIONS = [
     'time-of-day bounds are datetime.time without microseconds / tzinfo; either may be missing',
     'stitching: the list holds pandas Series (DataFrames only for n = 1) - the "list of symbols" form of the docstring is outside the statement; '
     'bounds are datetimes, strictly increasing or strictly decreasing (ties would give empty intervals), a missing (None) bound is allowed at the '
-    'unbounded end only (last upper bound / first lower bound); brackets are the half-open pairs "(]" (default, the one in the statement) and "[)" '
+    'unbounded end only (last upper bound / first lower bound) and a decreasing list has at least two real bounds ([None, t] has no direction and is read as increasing); brackets are the half-open pairs "(]" (default, the one in the statement) and "[)" '
     '- with "[]" a stamp on a bound would be covered twice by the request itself',
     'stitching with lb= lists: series i covers lb[i] .. lb[i+1] (last one unbounded above), the mirror image of the ub= form',
     'n-column stitching uses Series inputs; values are compared numerically (int inputs become float next to NaN)',
@@ -199,10 +199,10 @@ def _subset(draw, universe, empty_one_in=12):
 
 
 @st.composite
-def _dates_case(draw):
+def _dates_case(draw, maxk=MAXK):
     oc, style = _oc_and_call(draw)
     axis = draw(st.integers(0, len(_AXES) - 1))
-    ks = _subset(draw, list(range(MAXK + 1)))
+    ks = _subset(draw, list(range(maxk + 1)))
     kind, name, cols = draw(_ts_shape(len(ks)))
     hi = 2 * (max(ks) if ks else 3) + 3
 
@@ -349,7 +349,7 @@ def _is_known_f10(spec):
 KNOWN = {'c13.tod_wrap_ignores_openclose': _is_known_f10}      # 'c13.stitch_empty_series_inside' is added below
 
 # the generator leaves the known class out by construction; PV_C13_INCLUDE_KNOWN=1 puts it back (to re-find it / after a fix in pyg_base)
-EXCLUDE_KNOWN_BY_CONSTRUCTION = os.environ.get('PV_C13_INCLUDE_KNOWN', '') != '1'
+EXCLUDE_KNOWN_BY_CONSTRUCTION = os.environ.get('PV_C13_EXCLUDE_FIXED', '') == '1'   # both classes were fixed in /repo; they are generated by default now
 
 
 @st.composite
@@ -449,12 +449,12 @@ def _st_stamp(p):
 @st.composite
 def _stitch_case(draw, unslice=False, max_series=5, maxk=12):
     # the choices that define the classes come first (hypothesis varies the head of the choice sequence best)
-    m = draw(st.sampled_from([2, 3, 4, max_series] if unslice else [1, 2, 2, 3, 3, 4, 4, max_series]))
+    m = draw(st.sampled_from(([2, 3, 4] if unslice else [1, 2, 2, 3, 3, 4, 4]) + list(range(5, max_series + 1))))
     if unslice:
         n = draw(st.integers(2, m))
         form, order, oc, open_end, vtype, kind = 'ub', 'inc', None, False, 'f', 'series'
     else:
-        n = max(1, min(m, draw(st.sampled_from([1, 1, 2, 2, 3, 4, 5]))))
+        n = max(1, min(m, draw(st.sampled_from([1, 1, 2, 2, 3, 4, 5, max_series]))))
         form = draw(st.sampled_from(['ub', 'ub', 'lb']))
         order = draw(st.sampled_from(['inc', 'dec']))
         oc = draw(st.sampled_from([None, '(]', '[)']))
@@ -541,7 +541,7 @@ def _repair_empty_inside(spec):
 
 
 def _stitch_strategy(tier, unslice=False):
-    s = _stitch_case(unslice=unslice)
+    s = _stitch_case(unslice=unslice, max_series=6 if tier == 'thorough' else 5, maxk=16 if tier == 'thorough' else 12)
     if EXCLUDE_KNOWN_BY_CONSTRUCTION:
         s = s.map(_repair_empty_inside)
     return s
@@ -741,22 +741,22 @@ def run_unslice(spec):
 _ON = dict(('%s_on%s' % (side, b), 0.015) for side in ('lb', 'ub') for b in BRACKETS)
 
 SUBS = [
-    Sub('slice_dates', lambda tier: _dates_case(), run_slice_dates, quick=4000, thorough=20000,
-        rule='Series/DataFrames of 0-9 rows on 4 irregular time axes (daily, every 2nd day, hourly across midnight, 6-hourly at hh:00:01), bounds missing / on an index point / '
+    Sub('slice_dates', lambda tier: _dates_case(maxk=14 if tier == 'thorough' else MAXK), run_slice_dates, quick=4000, thorough=7000,
+        rule='Series/DataFrames of 0-11 rows on 4 irregular time axes (daily, every 2nd day, hourly across midnight, 6-hourly at hh:00:01), bounds missing / on an index point / '
              'between / before / after, as datetime, Timestamp, datetime64, date or text; 4 bracket pairs, letter forms, default; oracle: row filter with < / <= on datetimes, '
              'rows, labels, dtypes and cells untouched, operand untouched. non-trivial = a bound coincides with an index point',
-        floor=0.3, class_floors=dict(_ON, empty_ts=0.03, proper_subset=0.3, letters=0.05, **{'lb>ub': 0.03})),
-    Sub('slice_tod', _tod_strategy, run_slice_tod, quick=3200, thorough=20000,
+        floor=0.3, class_floors=dict(_ON, empty_ts=0.03, proper_subset=0.2, letters=0.05, **{'lb>ub': 0.03})),
+    Sub('slice_tod', _tod_strategy, run_slice_tod, quick=3200, thorough=7000,
         rule='intraday Series/DataFrames over 1-3 days (0-15 rows), datetime.time bounds (missing / on a row time / off), start <= end and start > end (wrap past midnight), '
              '4 bracket pairs, letter forms, default; oracle: filter on t.time(), wrap = (time after start) OR (time before end) with the given brackets. '
              'non-trivial = a bound coincides with the time of day of a row',
         floor=0.3, class_floors=dict(_ON, wrap=0.15, wrap_on_bound=0.08, window=0.15, one_sided=0.1)),
-    Sub('stitch', _stitch_strategy, run_stitch, quick=2400, thorough=16000,
-        rule='1-5 series (dense, sparse, empty; floats with NaN or ints) on a daily axis, strictly monotonic bound lists given as ub= or lb=, increasing or decreasing, optionally open at the '
+    Sub('stitch', _stitch_strategy, run_stitch, quick=2400, thorough=4500,
+        rule='1-5 (thorough: 1-6) series (dense, sparse, empty; floats with NaN or ints) on a daily axis, strictly monotonic bound lists given as ub= or lb=, increasing or decreasing, optionally open at the '
              'unbounded end, n from 1 to the number of series, brackets default / "(]" / "[)"; oracle: per-timestamp dictionary model - stamps of interval i come from series i..i+n-1, '
              'column j = series i+j or NaN, each stamp once, increasing; inputs untouched. non-trivial = >= 2 series, >= 2 result rows and (bound on a stamp, decreasing list, or n >= 2 with gaps)',
         floor=0.3, class_floors={'dec': 0.2, 'n>=2_gaps': 0.2, 'bound_on_stamp': 0.2, 'form=lb': 0.1, 'nan_cell_from_gap': 0.1, 'several_sources': 0.2}),
-    Sub('unslice', lambda tier: _stitch_strategy(tier, unslice=True), run_unslice, quick=800, thorough=5000,
+    Sub('unslice', lambda tier: _stitch_strategy(tier, unslice=True), run_unslice, quick=800, thorough=2500,
         rule='frames stitched by df_slice(series, ub=increasing bounds, n >= 2) from 2-5 NaN-free float series with gaps; oracle: df_unslice gives a dict with one Series per bound, and '
              'stitching [res[b] for b in ub] with the same ub and n reproduces the frame (stamps, columns, cells, NaN positions); frame and bounds untouched. '
              'non-trivial = frame of >= 3 rows from series with gaps',
